@@ -89,6 +89,12 @@ def generate(api):
              body, "pattern: in place via Arc::get_mut")
         need(r"id:\s*cache\.gen_pattern_id\(\),\s*units:\s*Units::UserSpaceOnUse,\s*content_units:\s*Units::UserSpaceOnUse,", body,
              "pattern: clone gets a generated id")
+        # convert_pattern applies the viewBox eagerly only when BOTH units are user space; otherwise to_user_coordinates does it once
+        p3, r3, b3 = rs.find_fn(src, 'convert_pattern')
+        need(r"if\s+patt\.view_box\.is_some\(\)\s*&&\s*patt\.units\s*==\s*Units::UserSpaceOnUse\s*&&\s*patt\.content_units\s*==\s*Units::UserSpaceOnUse\s*\{",
+             b3, "convert_pattern: eager viewBox only for user-space units and content units")
+        if len(re.findall(r"push_pattern_transform\(&mut\s+(?:patt\.)?root,\s*view_box\.to_transform\(rect\.size\(\)\)\)", body)) != 2:
+            raise api.Unsupported("to_user_coordinates: viewBox transform pushed exactly once per branch")
         # process_paint: resolution only for OBB units, descent into pattern content only through Arc::get_mut
         p2, r2, b2 = rs.find_fn(src, 'process_paint')
         need(r"if\s+paint\.units\(\)\s*==\s*Units::ObjectBoundingBox\s*\|\|\s*paint\.content_units\(\)\s*==\s*Units::ObjectBoundingBox\s*\{", b2,
